@@ -466,6 +466,7 @@ class TermCanvas(Canvas):
                 self.scrollback_buffer.append(self.term.pop(0))
 
         self.height = height
+        self.scrolling_up = min(self.scrolling_up, len(self.scrollback_buffer))
 
         self.reset_scroll()
 
@@ -1421,7 +1422,11 @@ class TermCanvas(Canvas):
             yield from self.term
         else:
             buf = [*self.scrollback_buffer, *self.term]
-            yield from buf[-(self.height + self.scrolling_up) : -self.scrolling_up]
+            for row in buf[-(self.height + self.scrolling_up) : -self.scrolling_up]:
+                if len(row) < self.width:
+                    yield row + [self.empty_char()] * (self.width - len(row))
+                else:
+                    yield row[: self.width]
 
     def content_delta(self, other: Canvas):
         if other is self:
